@@ -38,7 +38,8 @@ RULE = ("inputs = (a) 1-5 stacked token/byte/line mutations of corpus chunks (di
         "k=4096..16384 (polynomial), (f) the matrix of every (numeric/complex/hex literal, builtin element type, attribute context) "
         "combination and the minimal witnesses of every mechanism found so far, (g) an end-of-input matrix (text ending in every "
         "proper token prefix in 37 syntactic positions) and truncation of every corpus chunk at its token boundaries and inside "
-        "numeric/string literals (every 40th cut point per quick run, rotated by seed; all of them in thorough), (h) compact-DAG "
+        "numeric/string literals (every 40th cut point per quick run, rotated by seed; all of them in thorough), (h) an affine matrix (constants of 1..1000 digits x every affine operator x operand "
+        "positions, in affine_map/affine_set attributes, memref layouts and affine.apply/min/for/load), compact-DAG "
         "ladders: type/attribute alias doubling chains (printed form 2^N) used as result, operand, block-argument, attribute and "
         "function types and in diagnostics, N growing by 3 per step, (i) unmutated chunks for "
         "calibration; fuzz inputs are parsed with allow_unregistered on (70%) or off. An input is non-trivial if it differs "
@@ -297,6 +298,10 @@ def task_list(job):
         for k in range(len(corpus.chunks())):  # truncation of corpus chunks at token boundaries / inside literals
             if k % job["nshards"] == job["shard"]:
                 tasks.append(("trunc", k))
+    naff = c07_mut.aff_matrix_size() + len(c07_mut.aff_bounds_texts())
+    for k in range(naff):  # affine expressions: huge literals x every operator x every position (attribute, layout, affine ops)
+        if k % job["nshards"] == job["shard"] and job.get("affmatrix", True):
+            tasks.append(("affmatrix", k))
     for k in range(c07_mut.lit_matrix_size()):  # every (literal, builtin type, context) combination once per run
         if k % job["nshards"] == job["shard"] and job.get("litmatrix", True):
             tasks.append(("litmatrix", k))
@@ -329,6 +334,9 @@ def gen_input(job, kind, k):
         return c07_mut.lit_matrix_text(k), None, {"kind": kind}
     if kind == "eofmatrix":
         return c07_mut.eof_matrix_text(k), None, {"kind": kind}
+    if kind == "affmatrix":
+        n = c07_mut.aff_matrix_size()
+        return (c07_mut.aff_matrix_text(k) if k < n else c07_mut.aff_bounds_texts()[k - n]), None, {"kind": kind}
     if kind == "witness":
         f = witness_files()[k]
         with open(f, encoding="utf-8") as fh:
@@ -787,7 +795,7 @@ def child_run(job, tasks, a, out: ChildOut):
         else:
             text, seed_text, meta = gen_input(job, kind, k)
             rng = task_rng(job, kind + "/ctx", k)
-            unreg = job["unreg"] if kind == "text" else (True if kind in ("witness", "litmatrix", "eofmatrix") else rng.random() < 0.7)
+            unreg = job["unreg"] if kind == "text" else (True if kind in ("witness", "litmatrix", "eofmatrix", "affmatrix") else rng.random() < 0.7)
             rec, text = monitored(text, seed_text, meta, tidx, 0, unreg)
             if rec["cpu"] > budget(len(text)):
                 b.c("over_budget_inputs")
@@ -1080,8 +1088,9 @@ def finish(agg, tier):
     need("pump_ladders_complete", 60)
     need("lex_matrix_ladders", 15000)
     need("inputs_witness", 30)
-    need("inputs_litmatrix", 14000)
+    need("inputs_litmatrix", 20000)
     need("inputs_eofmatrix", 4000)
+    need("inputs_affmatrix", 20000)
     need("inputs_trunc", 10000)
     need("dag_ladders", 60)
     need("string_regex_probe_runs", z["shards"])
